@@ -1,7 +1,9 @@
 ------------------------------ MODULE ValueTrace ------------------------------
 (* C19 (value part) - verdicts on observations of real objects.
    kind "pair": di, dj descriptors; eq_ij, eq_ji, ne_ij (the != operator), hashable, hash_eq, tok_eq
-   kind "obj":  d; refl; pickle ("ok" | exception); pickle_eq, pickle_tok, copy_tok, hash_stable
+   kind "obj":  d; refl; pickle ("ok" | exception); pickle_eq, pickle_tok, copy_tok, hash_stable;
+                the same once more AFTER USE (every view / derived attribute of the object read, which fills its caches): a value is what it was
+                before somebody looked at it - used ("ok" | exception while reading), used_eq, used_tok, used_hash, used_pickle, used_pickle_eq, used_pickle_tok
    kind "trans": fam, eq = matrix of observed ==                                                    *)
 EXTENDS ValueLaws, TraceIO
 
@@ -22,6 +24,12 @@ ObjVerdict(e) ==
   ELSE IF ~e.pickle_tok THEN "reject:unpickled_clone_has_another_token"
   ELSE IF ~e.copy_tok THEN "reject:copy_has_another_token"
   ELSE IF ~e.hash_stable THEN "reject:clone_hashes_differently"
+  ELSE IF ~e.used_eq THEN "reject:object_differs_from_its_earlier_copy_after_use"
+  ELSE IF ~e.used_tok THEN "reject:token_changes_with_use"
+  ELSE IF ~e.used_hash THEN "reject:hash_changes_with_use"
+  ELSE IF e.used_pickle # "ok" THEN "reject:pickle_of_a_used_object_failed_" \o e.used_pickle
+  ELSE IF ~e.used_pickle_eq THEN "reject:unpickled_clone_of_a_used_object_not_equal"
+  ELSE IF ~e.used_pickle_tok THEN "reject:unpickled_clone_of_a_used_object_has_another_token"
   ELSE "ok"
 TransVerdict(e) ==
   LET n == Len(e.eq) IN
